@@ -31,6 +31,7 @@ type C11Case struct {
 var c11WorkerWeights = core.OpWeights{
 	core.OpInsert: 20, core.OpInsertNew: 20, core.OpDelete: 20, core.OpUpdate: 6, core.OpGet: 8, core.OpIter: 4,
 	core.OpPersist: 8, core.OpReload: 5, core.OpClone: 2,
+	core.OpIterStop: 3, // interpreted by the workers as a cursor walk (Cursor, Min, Forward ...) compared with the model
 	core.OpSize: 6, // interpreted by the workers as "diff the tree against the version it started from" (DiffIter + DiffLinks)
 }
 
@@ -96,7 +97,8 @@ func runC11(c C11Case, o *run.Obs) error {
 	switch c.Env {
 	case "real":
 		realStore = mast.NewInMemoryStore()
-		realCache = mast.NewNodeCache(256)
+		// a roomy cache or a small, constantly evicting one (evictions mean re-loads and re-publication)
+		realCache = mast.NewNodeCache([]int{256, 8, 3}[len(c.Workers)%3])
 		for name, b := range w.Store.Snapshot() {
 			realStore.Store(core.Ctx, name, b)
 		}
@@ -242,6 +244,11 @@ func runC11(c C11Case, o *run.Obs) error {
 								// the node diff runs too (its result for unpersisted trees is not specified; the race detector watches it)
 								err = t.M.DiffLinks(core.Ctx, st.snap.M, func(removed bool, l interface{}) (bool, error) { return true, nil })
 							}
+						}
+					case core.OpIterStop:
+						var cur *mast.Cursor
+						if cur, err = t.M.Cursor(core.Ctx); err == nil {
+							err = walkCursor(w, &heldCursor{c: cur, model: t.Model.Clone(), at: si})
 						}
 					case core.OpGet:
 						err = w.Get(t, op.K%poolLen)
